@@ -37,6 +37,17 @@ def check(run, driver):
     )
     from common import call_form
     thorough = run.tier == "thorough"
+    # ---- translator: radius construction (whole row sorted, index k), strict counts minus one and the digamma formula of BOTH kNN estimators
+    #      are read off the CURRENT source; the formulas become Lean terms in an arbitrary psi and must equal the model's knnMIψ / knnCMIψ
+    #      (the functions psi_free_* / code_eq_spec_* are about) for all psi, metrics, k and samples
+    import gen_tables
+    try:
+        src = gen_tables.knn_obligation_source()
+        ok, out = gen_tables.obligation_standalone("ObC11", src)
+        run.oblige("ObC11 KSG formulas of knn_mutual_information / knn_conditional_mutual_information regenerated from the source = the model's knnMIψ / knnCMIψ, for all psi, metrics, k, samples (ring)", ok, out if not ok else "")
+        run.extra["translator"] = "kNN estimators translated (radius / counts recognised, formula regenerated)"
+    except gen_tables.Untranslatable as e:
+        run.extra["translator"] = f"UNTRANSLATABLE ({e}) -- outside the recognised shape; the obligation is not established on this run and the property is decided by the exact-rational comparison alone"
     rng = run.rng
     warnings.simplefilter("ignore")
     reqs, meta = [], []
